@@ -30,9 +30,10 @@ def store_harness(name, modes, quick, thorough, flags=None):
 
 PROP = {
     "generators": [{"script": "gen_store.py"}],
-    "lean_targets": ["MultiProofs.C05", "MultiProofs.GenTieStore"],
+    "lean_targets": ["MultiProofs.C05", "MultiProofs.GenTieStore", "MultiProofs.CodeRefinesC05"],
     "lean_module": "MultiProofs.C05",
     "theorems": [
+        "Multi.CodeRefines.code_assign_exact",
         "Multi.GenTieStore.AR_assign_other_rv_tie",
         "Multi.GenTieStore.AR_assign_tie",
         "Multi.GenTieStore.assignment_is_the_code",
